@@ -1,0 +1,25 @@
+//go:build verif
+
+// Package verifhook provides yield points for the verification harness.
+// It is only active when the `verif` build tag is set.
+package verifhook
+
+import "sync/atomic"
+
+var yield atomic.Value // func(point string)
+
+// SetYield installs f as the function called at every yield point. nil removes it.
+func SetYield(f func(point string)) {
+	if f == nil {
+		f = func(string) {}
+	}
+	yield.Store(f)
+}
+
+// Yield is called by library code at named points.
+func Yield(point string) {
+	f, _ := yield.Load().(func(string))
+	if f != nil {
+		f(point)
+	}
+}
